@@ -2,9 +2,16 @@ import NdnProofs.Lemmas.Keychain
 /-!
 # C15 — Keychain contents, defaults and signers stay consistent over any history
 
-Theorems about `Ndn.Keychain` (model of `KeychainSqlite3` / `Identity` / `Key` + `TpmFile`, as repaired by
-candidate_fixes/C15-*.diff) for **every** history `ops : List (Op × Option Nat)` — each operation
-optionally with a storage failure injected at its k-th database write / commit / TPM call.
+Theorems about `Ndn.Keychain` (model of `KeychainSqlite3` / `Identity` / `Key` + `TpmFile`) for **every**
+history `ops : List (Op × Option Nat)` — each operation optionally with a storage failure injected at its
+k-th database write / commit / TPM call; `new_key` with every `key_id` / `key_id_type` the code accepts
+(explicit ids of live keys, of deleted keys, of keys of another identity included).
+
+The private-key directory is a map file name → private key, the file name of a key being `fn key_name`
+(`TpmFile._to_file_name`: the SHA-256 of the encoded key name).  `fn` is a parameter of every theorem and is
+**arbitrary**: neither injectivity nor the concrete SHA-256 is assumed.  That no two key names stored in the
+database ever share a private-key file is *proved* (`key_files_match`): the repaired `generate_key` refuses a
+key name whose file exists, so a name colliding with a stored one is never stored.
 
 The SQL triggers are not part of the hand-written model: `insertRow` / `updSetDefault` interpret the
 table `Ndn.Gen.C15.triggers` generated from the live `INITIALIZE_SQL`; the closed forms the proofs use
@@ -116,13 +123,13 @@ theorem atMostOne_of_defU {ν : Type} {sc : Bool} {t : Table ν} (h : DefU sc t)
 /-- **default_unique.** After any history (with any injected storage failures) there is at most one default
     identity, at most one default key per identity and at most one default certificate per key - in what the
     connection sees and in what is committed. -/
-theorem default_unique (ops : List (Op × Option Nat)) :
-    let s := run Sys.init ops
+theorem default_unique (fn : KeyName → FileName) (ops : List (Op × Option Nat)) :
+    let s := run (Sys.init fn) ops
     (AtMostOneDefault false s.cur.ids.rows ∧ AtMostOneDefault true s.cur.keys.rows ∧
       AtMostOneDefault true s.cur.certs.rows) ∧
     (AtMostOneDefault false s.com.ids.rows ∧ AtMostOneDefault true s.com.keys.rows ∧
       AtMostOneDefault true s.com.certs.rows) := by
-  have h := sysInv_run ops
+  have h := sysInv_run fn ops
   exact ⟨⟨atMostOne_of_defU h.cur.ids.defu, atMostOne_of_defU h.cur.keys.defu, atMostOne_of_defU h.cur.certs.defu⟩,
     ⟨atMostOne_of_defU h.com.ids.defu, atMostOne_of_defU h.com.keys.defu, atMostOne_of_defU h.com.certs.defu⟩⟩
 
@@ -143,11 +150,11 @@ theorem defaultUnlessDeleted_of_inv {ν : Type} [DecidableEq ν] {sc : Bool} {T 
 /-- **default_exists.** After any history (with any injected storage failures): a keychain with identities
     has a default identity, an identity with keys has a default key, a key with certificates has a default
     certificate - unless that scope's default was deleted and none has been set or inserted since. -/
-theorem default_exists (ops : List (Op × Option Nat)) :
-    let s := run Sys.init ops
+theorem default_exists (fn : KeyName → FileName) (ops : List (Op × Option Nat)) :
+    let s := run (Sys.init fn) ops
     DefaultUnlessDeleted false s.cur.ids ∧ DefaultUnlessDeleted true s.cur.keys ∧
       DefaultUnlessDeleted true s.cur.certs := by
-  have h := sysInv_run ops
+  have h := sysInv_run fn ops
   exact ⟨defaultUnlessDeleted_of_inv h.cur.ids, defaultUnlessDeleted_of_inv h.cur.keys,
     defaultUnlessDeleted_of_inv h.cur.certs⟩
 
@@ -193,8 +200,8 @@ theorem find_view {ν : Type} [DecidableEq ν] {t : Table ν} (hn : NamesU t) (q
     identities, every identity (row id `o`) over its keys, every key (row id `o`) over its certificates -
     `len` = number of iterated names, no name iterated twice, `x in v` ⇔ `x` iterated ⇔ `v[x]` defined, and
     `v[x]` is the entry named `x` owned by `o`.  Views of different owners are disjoint. -/
-theorem views_agree (ops : List (Op × Option Nat)) :
-    let d := (run Sys.init ops).cur
+theorem views_agree (fn : KeyName → FileName) (ops : List (Op × Option Nat)) :
+    let d := (run (Sys.init fn) ops).cur
     ConsistentView (idLen d) (idIter d) (idRow? d) (·.name) ∧
     (∀ o, ConsistentView (keyLen d o) (keyIter d o) (keyRow? d o) (·.name) ∧
         ∀ k r, keyRow? d o k = some r → r.owner = o) ∧
@@ -203,7 +210,7 @@ theorem views_agree (ops : List (Op × Option Nat)) :
     (∀ o o' k, k ∈ keyIter d o → k ∈ keyIter d o' → o = o') ∧
     (∀ o o' c, c ∈ certIter d o → c ∈ certIter d o' → o = o') := by
   intro d
-  have h := (sysInv_run ops).cur
+  have h := (sysInv_run fn ops).cur
   refine ⟨?_, fun o => ⟨?_, fun k r hr => ?_⟩, fun o => ⟨?_, fun c r hr => ?_⟩, ?_, ?_⟩
   · have := find_view h.ids.names (fun _ => true)
     have hf : d.ids.rows.filter (fun _ => true) = d.ids.rows := List.filter_eq_self.mpr (fun _ _ => rfl)
@@ -291,39 +298,77 @@ theorem selected_of_resolve {d : Db} {sel : Sel} {k : KeyName} {c : CertName}
     exact .dflt ir kr cr hi1 hi2 hk1 hk2.2 hk2.1 hc1 hc2.2 hc2.1
 
 /-- what a `get_signer` step that returns a signer returned -/
-theorem getSigner_step {J : List KeyName → Nat → Prop} {s s' : Sys} (hs : SysInv J s) {sel : Sel} {loc : Option Nat}
-    {f : Option Nat} {sg : Signer} (h : step s (.getSigner sel loc, f) = (.ok (some sg), s')) :
-    ∃ k c, resolve s.cur sel = some (k, c) ∧ sg = ⟨k, locOf loc c⟩ ∧ k ∈ s.tpm := by
-  have hsp := getSigner_spec (J := J) sel loc s { s with fault := f } ⟨SysInv.fi s f hs, rfl, rfl, rfl⟩
+theorem getSigner_step {J : List (FileName × Nat) → Nat → Prop} {s s' : Sys} (hs : SysInv J s) {sel : Sel}
+    {loc : Option Nat} {f : Option Nat} {sg : Signer} (h : step s (.getSigner sel loc, f) = (.ok (some sg), s')) :
+    ∃ k c, resolve s.cur sel = some (k, c) ∧ sg.key = k ∧ sg.loc = locOf loc c ∧
+      fileGet s.tpm (s.cfg.fn k) = some sg.priv := by
+  have hsp := getSigner_spec (J := J) sel loc s { s with fault := f } ⟨SysInv.fi s f hs, rfl, rfl, rfl, rfl⟩
   simp only [step, Op.prog, run_bind] at h
   rcases hm : (Keychain.getSigner sel loc).run { s with fault := f } with ⟨e | sg1, s1⟩ <;> simp only [hm] at h hsp
   · simp at h
   · simp only [run_pure, Prod.mk.injEq, Except.ok.injEq, Option.some.injEq] at h
     rw [← h.1]; exact hsp
 
-/-- **signer_right_key.** After any history (with any injected storage failures), whenever `get_signer`
-    returns a signer - freshly made or from the cache - it signs with the private key stored under the name
-    of the selected key, and its key locator is the caller's explicit one or else the selected (default)
-    certificate's name. -/
-theorem signer_right_key (ops : List (Op × Option Nat)) (sel : Sel) (loc : Option Nat) (f : Option Nat)
-    (sg : Signer) (s' : Sys) (h : step (run Sys.init ops) (.getSigner sel loc, f) = (.ok (some sg), s')) :
-    ∃ k c, Selected (run Sys.init ops).cur sel k c ∧ sg.key = k ∧ sg.loc = locOf loc c ∧
-      k ∈ (run Sys.init ops).tpm := by
-  obtain ⟨k, c, hr, rfl, ht⟩ := getSigner_step (sysInv_run ops) h
-  exact ⟨k, c, selected_of_resolve hr, rfl, rfl, ht⟩
+theorem init_fn (fn : KeyName → FileName) (ops : List (Op × Option Nat)) : (run (Sys.init fn) ops).cfg.fn = fn := by
+  rw [run_cfg]; rfl
+
+/-- **key_files_match.** After any history (any injected storage failures, any explicit / random / hashed key ids,
+    ANY file-name function): every key row - as the connection sees the database and as committed - has its
+    private-key file, and the file holds the private key that belongs to the public key (`key_bits`) in the row;
+    no two different stored key names have the same file name; no private key is in two files. -/
+theorem key_files_match (fn : KeyName → FileName) (ops : List (Op × Option Nat)) :
+    let s := run (Sys.init fn) ops
+    (∀ r ∈ s.cur.keys.rows, fileGet s.tpm (fn r.name) = some r.data) ∧
+    (∀ r ∈ s.com.keys.rows, fileGet s.tpm (fn r.name) = some r.data) ∧
+    (∀ a ∈ s.cur.keys.rows ++ s.com.keys.rows, ∀ b ∈ s.cur.keys.rows ++ s.com.keys.rows,
+      fn a.name = fn b.name → a.name = b.name) ∧
+    (∀ e1 ∈ s.tpm, ∀ e2 ∈ s.tpm, e1.2 = e2.2 → e1 = e2) := by
+  intro s
+  have hi := sysInv_run fn ops
+  have hm := hi.matched
+  rw [init_fn] at hm
+  refine ⟨hm.1, hm.2, fun a ha b hb e => ?_, fun e1 h1 e2 h2 e => ?_⟩
+  · have := hi.fd a.name (List.mem_map_of_mem ha) b.name (List.mem_map_of_mem hb)
+    rw [init_fn] at this
+    exact this e
+  · apply Classical.byContradiction
+    intro hne
+    rcases pairwise_mem hi.privs h1 h2 hne with h | h
+    · exact h e
+    · exact h e.symm
+
+/-- **signer_right_key.** After any history (with any injected storage failures, any explicit / random / hashed
+    key ids, any file-name function): whenever `get_signer` returns a signer - freshly
+    made or from the cache - it was made for the selected key, its key locator is the caller's explicit one or
+    else the selected (default) certificate's name, and it signs with the private key that is in the selected
+    key's file, which is the private key belonging to the public key (`key_bits`) the database holds for that
+    key name. -/
+theorem signer_right_key (fn : KeyName → FileName) (ops : List (Op × Option Nat))
+    (sel : Sel) (loc : Option Nat) (f : Option Nat)
+    (sg : Signer) (s' : Sys) (h : step (run (Sys.init fn) ops) (.getSigner sel loc, f) = (.ok (some sg), s')) :
+    ∃ k c, Selected (run (Sys.init fn) ops).cur sel k c ∧ sg.key = k ∧ sg.loc = locOf loc c ∧
+      fileGet (run (Sys.init fn) ops).tpm (fn k) = some sg.priv ∧
+      ∀ kr ∈ (run (Sys.init fn) ops).cur.keys.rows, kr.name = k → kr.data = sg.priv := by
+  have hi := sysInv_run fn ops
+  obtain ⟨k, c, hr, h1, h2, ht⟩ := getSigner_step hi h
+  rw [init_fn] at ht
+  refine ⟨k, c, selected_of_resolve hr, h1, h2, ht, fun kr hkr hn => ?_⟩
+  have := hi.matched.1 kr hkr
+  rw [init_fn, hn, ht] at this
+  exact (Option.some.inj this).symm
 
 /-- **views_scoped.** After any history (with any injected storage failures) every key row hangs below an
     existing identity row and is named after that identity, and every certificate row hangs below an existing
     key row: the view of an identity lists only keys named after it, and there are no orphan rows that a later
     identity or key with a re-used row id could adopt.  (Foreign keys are off; this is the hand-written cascade
     order - children first - doing its job, also when it is interrupted.) -/
-theorem views_scoped (ops : List (Op × Option Nat)) :
-    let d := (run Sys.init ops).cur
+theorem views_scoped (fn : KeyName → FileName) (ops : List (Op × Option Nat)) :
+    let d := (run (Sys.init fn) ops).cur
     (∀ i ∈ d.ids.rows, ∀ k ∈ keyIter d i.rid, k.idn = i.name) ∧
     (∀ k ∈ d.keys.rows, ∃ i ∈ d.ids.rows, i.rid = k.owner) ∧
     (∀ c ∈ d.certs.rows, ∃ k ∈ d.keys.rows, k.rid = c.owner) := by
   intro d
-  have h := sysInv_run ops
+  have h := sysInv_run fn ops
   refine ⟨fun i hi k hk => ?_, fun k hk => ?_, h.link.1.certKey⟩
   · simp only [keyIter, List.mem_map, List.mem_filter, beq_iff_eq] at hk
     obtain ⟨kr, ⟨hkr, ho⟩, rfl⟩ := hk
@@ -337,17 +382,17 @@ theorem views_scoped (ops : List (Op × Option Nat)) :
 
 theorem delKey_step {s s' : Sys} {k : KeyName} {f : Option Nat} {r : Option Signer}
     (h : step s (.delKey k, f) = (.ok r, s')) : DelKeyPost k s s' := by
-  have hsp := delKey_spec k s { s with fault := f } ⟨rfl, rfl, rfl⟩
+  have hsp := delKey_spec k s { s with fault := f } ⟨rfl, rfl, rfl, rfl⟩
   simp only [step, Op.prog, run_bind] at h
   rcases hm : (Keychain.delKey k).run { s with fault := f } with ⟨e | u, s1⟩ <;> simp only [hm] at h hsp
   · simp at h
   · simp only [run_pure, Prod.mk.injEq] at h
     rw [← h.2]
-    exact ⟨hsp.found, hsp.keys, hsp.ids, hsp.tpm, hsp.kid, hsp.committed, hsp.cache⟩
+    exact ⟨hsp.found, hsp.keys, hsp.ids, hsp.tpm, hsp.kid, hsp.cfg, hsp.committed, hsp.cache⟩
 
 theorem delIdentity_step {s s' : Sys} {n : Nat} {f : Option Nat} {r : Option Signer} (hn : NamesU s.cur.keys.rows)
     (h : step s (.delIdentity n, f) = (.ok r, s')) : DelIdPost n s s' := by
-  have hsp := delIdentity_spec n s hn { s with fault := f } ⟨rfl, rfl, rfl⟩
+  have hsp := delIdentity_spec n s hn { s with fault := f } ⟨rfl, rfl, rfl, rfl⟩
   simp only [step, Op.prog, run_bind] at h
   rcases hm : (Keychain.delIdentity n).run { s with fault := f } with ⟨e | u, s1⟩ <;> simp only [hm] at h hsp
   · simp at h
@@ -357,17 +402,17 @@ theorem delIdentity_step {s s' : Sys} {n : Nat} {f : Option Nat} {r : Option Sig
 
 /-- **delete_cascades (key).** After any history, a `del_key k` that returns normally (whatever failure was
     scheduled, it was not reached) leaves: no key named `k`; no certificate below the key row that carried
-    that name; no private key for `k`; everything committed; other keys and all identities untouched. -/
-theorem del_key_cascades (ops : List (Op × Option Nat)) (k : KeyName) (f : Option Nat) (r : Option Signer)
-    (s' : Sys) (h : step (run Sys.init ops) (.delKey k, f) = (.ok r, s')) :
-    let s := run Sys.init ops
+    that name; no private-key file for `k`; everything committed; other keys and all identities untouched. -/
+theorem del_key_cascades (fn : KeyName → FileName) (ops : List (Op × Option Nat)) (k : KeyName) (f : Option Nat)
+    (r : Option Signer) (s' : Sys) (h : step (run (Sys.init fn) ops) (.delKey k, f) = (.ok r, s')) :
+    let s := run (Sys.init fn) ops
     (∀ x ∈ s'.cur.keys.rows, x.name ≠ k) ∧
     (∀ kr ∈ s.cur.keys.rows, kr.name = k → ∀ c ∈ s'.cur.certs.rows, c.owner ≠ kr.rid) ∧
-    k ∉ s'.tpm ∧ s'.com = s'.cur ∧
+    fileGet s'.tpm (fn k) = none ∧ s'.com = s'.cur ∧
     (∀ x ∈ s.cur.keys.rows, x.name ≠ k → x ∈ s'.cur.keys.rows) ∧ s'.cur.ids = s.cur.ids := by
   intro s
   have hp := delKey_step h
-  have hi := (sysInv_run ops).cur
+  have hi := (sysInv_run fn ops).cur
   obtain ⟨ir, kr0, _, hkr0, hcerts⟩ := hp.found
   obtain ⟨hkr0m, hkr0p⟩ := find_spec hkr0
   simp only [Bool.and_eq_true, decide_eq_true_eq, beq_iff_eq] at hkr0p
@@ -378,24 +423,24 @@ theorem del_key_cascades (ops : List (Op × Option Nat)) (k : KeyName) (f : Opti
     subst this
     rw [hcerts, List.mem_filter] at hc
     simpa using hc.2
-  · rw [hp.tpm, List.mem_filter]
-    simp
+  · rw [hp.tpm, init_fn]
+    exact fileGet_remove_self _ _
   · rw [hp.keys, List.mem_filter]
     exact ⟨hx, by simp [hne]⟩
 
 /-- **delete_cascades (identity).** After any history, a `del_identity n` that returns normally leaves: no
     identity named `n`; for every key row that was below the identity row carrying that name: no key of that
-    name, no private key for it, no certificate below it; everything committed. -/
-theorem del_identity_cascades (ops : List (Op × Option Nat)) (n : Nat) (f : Option Nat) (r : Option Signer)
-    (s' : Sys) (h : step (run Sys.init ops) (.delIdentity n, f) = (.ok r, s')) :
-    let s := run Sys.init ops
+    name, no private-key file for it, no certificate below it; everything committed. -/
+theorem del_identity_cascades (fn : KeyName → FileName) (ops : List (Op × Option Nat)) (n : Nat) (f : Option Nat)
+    (r : Option Signer) (s' : Sys) (h : step (run (Sys.init fn) ops) (.delIdentity n, f) = (.ok r, s')) :
+    let s := run (Sys.init fn) ops
     (∀ x ∈ s'.cur.ids.rows, x.name ≠ n) ∧
     (∀ ir ∈ s.cur.ids.rows, ir.name = n → ∀ kr ∈ s.cur.keys.rows, kr.owner = ir.rid →
-      (∀ x ∈ s'.cur.keys.rows, x.name ≠ kr.name) ∧ kr.name ∉ s'.tpm ∧
+      (∀ x ∈ s'.cur.keys.rows, x.name ≠ kr.name) ∧ fileGet s'.tpm (fn kr.name) = none ∧
       ∀ c ∈ s'.cur.certs.rows, c.owner ≠ kr.rid) ∧
     s'.com = s'.cur := by
   intro s
-  have hi := (sysInv_run ops).cur
+  have hi := (sysInv_run fn ops).cur
   have hp := delIdentity_step hi.keys.names h
   obtain ⟨ir0, hir0, hkeys, hcerts, htpm, _⟩ := hp.found
   obtain ⟨hir0m, hir0p⟩ := find_spec hir0
@@ -414,33 +459,37 @@ theorem del_identity_cascades (ops : List (Op × Option Nat)) (n : Nat) (f : Opt
       have := hx.2
       simp only [Bool.not_eq_true', decide_eq_false_iff_not] at this
       exact this hmem
-    · rw [htpm, List.mem_filter]
-      intro hh
-      have := hh.2
-      simp only [Bool.not_eq_true', decide_eq_false_iff_not] at this
-      exact this hmem
+    · rw [htpm, init_fn]
+      refine fileGet_filter_none fun e _ he => ?_
+      simp only [Bool.not_eq_false', decide_eq_true_eq]
+      rw [he]
+      exact List.mem_map_of_mem hmem
 
 /-! ## no_signer_for_deleted -/
 
-/-- key `k` has no private key and its id will never be generated again -/
-def KeyGone (k : KeyName) (t : List KeyName) (n : Nat) : Prop := k ∉ t ∧ k.kid < n
+/-- private key `q` is in no file and will never be generated again -/
+def PrivGone (q : Nat) (t : List (FileName × Nat)) (n : Nat) : Prop := (∀ e ∈ t, e.2 ≠ q) ∧ q < n
 
-theorem keyGone_ok (k : KeyName) : JOk (KeyGone k) := by
-  refine ⟨fun t n m h => ⟨?_, by have := h.2; omega⟩, fun t n p h => ⟨fun hm => h.1 (List.mem_filter.mp hm).1, h.2⟩⟩
-  simp only [List.mem_append, List.mem_singleton, not_or]
-  refine ⟨h.1, fun e => ?_⟩
-  have := h.2
-  rw [e] at this
-  simp at this
+theorem privGone_ok (q : Nat) : JOk (PrivGone q) := by
+  refine ⟨fun t n f h => ⟨fun e he => ?_, by have := h.2; omega⟩, fun t n p h => ⟨fun e he => h.1 e (List.mem_filter.mp he).1, h.2⟩⟩
+  rcases mem_writeFile he with he | rfl
+  · exact h.1 e he
+  · have := h.2
+    show n ≠ q
+    omega
 
 /-- **no_signer_for_deleted.** Once `del_key k` has returned normally, no later `get_signer` - whatever the
-    history in between, with any injected storage failures, with whatever arguments, cached or not - returns a
-    signer that signs with `k`'s private key. -/
-theorem no_signer_for_deleted (ops1 ops2 : List (Op × Option Nat)) (k : KeyName) (f f' : Option Nat)
-    (r : Option Signer) (s2 s' : Sys) (sel : Sel) (loc : Option Nat) (sg : Signer)
-    (hdel : step (run Sys.init ops1) (.delKey k, f) = (.ok r, s2))
-    (hget : step (run s2 ops2) (.getSigner sel loc, f') = (.ok (some sg), s')) : sg.key ≠ k := by
-  have h1 := sysInv_run ops1
+    history in between (new keys under the SAME key name included: an explicit `key_id` may be used again), with
+    any injected storage failures, with whatever arguments, cached or not - returns a signer that signs with the
+    deleted key's private key: the key row `kr` that `del_key` removed held the public key `kr.data`, its private
+    key was in `k`'s file, and no later signer holds it. -/
+theorem no_signer_for_deleted (fn : KeyName → FileName) (ops1 ops2 : List (Op × Option Nat)) (k : KeyName)
+    (f f' : Option Nat) (r : Option Signer) (s2 s' : Sys) (sel : Sel) (loc : Option Nat) (sg : Signer)
+    (hdel : step (run (Sys.init fn) ops1) (.delKey k, f) = (.ok r, s2))
+    (hget : step (run s2 ops2) (.getSigner sel loc, f') = (.ok (some sg), s')) :
+    ∃ kr ∈ (run (Sys.init fn) ops1).cur.keys.rows, kr.name = k ∧
+      fileGet (run (Sys.init fn) ops1).tpm (fn k) = some kr.data ∧ sg.priv ≠ kr.data := by
+  have h1 := sysInv_run fn ops1
   have hp := delKey_step hdel
   have h2 : Inv s2 := by
     have := step_of_pres SysInv.fi (pres_prog JOk.trivial) _ (Op.delKey k, f) h1
@@ -448,21 +497,33 @@ theorem no_signer_for_deleted (ops1 ops2 : List (Op × Option Nat)) (k : KeyName
   obtain ⟨ir, kr0, _, hkr0, _⟩ := hp.found
   obtain ⟨hkr0m, hkr0p⟩ := find_spec hkr0
   simp only [Bool.and_eq_true, decide_eq_true_eq, beq_iff_eq] at hkr0p
-  have hgone : KeyGone k s2.tpm s2.nextKid := by
-    refine ⟨by rw [hp.tpm, List.mem_filter]; simp, ?_⟩
-    rw [hp.kid, ← hkr0p.1]
-    exact h1.keyKids.1 kr0 hkr0m
-  have h3 : SysInv (KeyGone k) (run s2 ops2) :=
-    run_of_pres SysInv.fi (pres_prog (keyGone_ok k)) _ ops2 (h2.withJ hgone)
-  obtain ⟨k', c, _, rfl, hk'⟩ := getSigner_step h3 hget
-  intro e
-  exact h3.extra.1 (by rw [← e]; exact hk')
+  have hfile : fileGet (run (Sys.init fn) ops1).tpm (fn k) = some kr0.data := by
+    have := h1.matched.1 kr0 hkr0m
+    rw [init_fn, hkr0p.1] at this
+    exact this
+  have hmem := fileGet_some_mem hfile
+  have hgone : PrivGone kr0.data s2.tpm s2.nextKid := by
+    refine ⟨fun e he he2 => ?_, ?_⟩
+    · rw [hp.tpm, init_fn] at he
+      obtain ⟨he1, he3⟩ := List.mem_filter.mp he
+      simp only [ne_eq, decide_not, Bool.not_eq_true', decide_eq_false_iff_not] at he3
+      have hne : e ≠ (fn k, kr0.data) := fun e' => he3 (by rw [e'])
+      rcases pairwise_mem h1.privs he1 hmem hne with h | h
+      · exact h he2
+      · exact h he2.symm
+    · rw [hp.kid]
+      exact h1.kids _ hmem
+  have h3 : SysInv (PrivGone kr0.data) (run s2 ops2) :=
+    run_of_pres SysInv.fi (pres_prog (privGone_ok _)) _ ops2 (h2.withJ hgone)
+  obtain ⟨k', c, _, _, _, hk'⟩ := getSigner_step h3 hget
+  exact ⟨kr0, hkr0m, hkr0p.1, hfile, h3.extra.1 _ (fileGet_some_mem hk')⟩
 
 /-! ## reopen_same -/
 
-/-- a key-generating operation answered sqlite's IntegrityError: the freshly generated random key id, or the
-    timestamped name of its self-signed certificate, was already in the database.  (The only way a
-    failure-free operation can end with uncommitted work.) -/
+/-- a key-generating operation answered sqlite's IntegrityError: the key name it constructed (whose private-key
+    file did not exist), or the timestamped name of its self-signed certificate, was already in the database.
+    (The only way a failure-free operation can end with uncommitted work.  A `new_key` with the key id of a LIVE
+    key is not such a case: it is refused with ValueError before anything is written - `live_key_id_refused`.) -/
 def KeyGenClash (s : Sys) (op : Op) : Prop :=
   op.keyGen = true ∧ (step s (op, none)).1 = .error .integrityError
 
@@ -493,65 +554,182 @@ theorem clean_run (ops : List Op) : ∀ s : Sys, s.cur = s.com → NoClash s ops
 /-- **reopen_same.** After any history without injected storage failures (in which key generation never hit
     an IntegrityError) nothing is uncommitted, so closing and reopening the store changes neither the
     database the connection sees nor the private-key store; only the signer cache starts empty. -/
-theorem reopen_same (ops : List Op) (h : NoClash Sys.init ops) :
-    let s := run Sys.init (ops.map fun o => (o, none))
+theorem reopen_same (fn : KeyName → FileName) (ops : List Op) (h : NoClash (Sys.init fn) ops) :
+    let s := run (Sys.init fn) (ops.map fun o => (o, none))
     let s' := (step s (.reopen, none)).2
     s.cur = s.com ∧ s'.cur = s.cur ∧ s'.com = s.com ∧ s'.tpm = s.tpm ∧ s'.nextKid = s.nextKid ∧ s'.cache = [] := by
   intro s s'
-  have hc : s.cur = s.com := clean_run ops Sys.init rfl h
+  have hc : s.cur = s.com := clean_run ops (Sys.init fn) rfl h
   refine ⟨hc, ?_, rfl, rfl, rfl, rfl⟩
   show s.com = s.cur
   exact hc.symm
 
-/-! ## non-vacuity: the hypotheses are met by concrete histories (evaluated by the kernel) -/
+/-! ## a refused new_key changes nothing -/
+
+/-- **new_key_refused_unchanged.** After any history (any `fn`, any injected storage failures), a `new_key` - with
+    whatever `key_type`, `key_id`, `key_id_type`, through whatever fault schedule - that is refused with ValueError
+    (unsupported key type, unsupported `key_id_type`, or - the repair - a key name whose private key is already
+    stored) leaves the whole system state unchanged: both views of the three tables with their defaults, the
+    private-key directory, the signer cache, the key-pair counter.  So repeating it, or any other operation after
+    it, behaves as if it had not been attempted. -/
+theorem new_key_refused_unchanged (fn : KeyName → FileName) (ops : List (Op × Option Nat)) (n : Nat) (bad : Bool)
+    (spec : KeyIdSpec) (f : Option Nat) :
+    let s := run (Sys.init fn) ops
+    (step s (.newKey n bad spec, f)).1 = .error .valueError → (step s (.newKey n bad spec, f)).2 = s := by
+  intro s he
+  have hf : s.fault = none := run_fault _ ops rfl
+  have hsp := newKey_valueError n bad spec s { s with fault := f } ⟨rfl, rfl, rfl, rfl, rfl, rfl⟩
+  simp only [step, Op.prog, run_bind] at he ⊢
+  rcases hm : (Keychain.newKey n bad spec).run { s with fault := f } with ⟨e | u, s1⟩ <;> simp only [hm] at he hsp ⊢
+  · simp only [Except.error.injEq] at he
+    obtain ⟨h1, h2, h3, h4, h5, h6⟩ := hsp he
+    rcases s with ⟨c0, a0, b0, t0, ca0, n0, f0⟩
+    rcases s1 with ⟨c1, a1, b1, t1, ca1, n1, f1⟩
+    simp only at h1 h2 h3 h4 h5 h6 hf
+    subst h1 h2 h3 h4 h5 h6 hf
+    rfl
+  · simp [run_pure] at he
+
+/-- **live_key_id_refused.** After any history: `new_key` with the
+    explicit key id of a key that is in the database (a live key - whatever its type, whichever identity view it was
+    made through, before or after a reopen) is refused with ValueError, and (`new_key_refused_unchanged`) nothing
+    changes - in particular the live key keeps its private key. -/
+theorem live_key_id_refused (fn : KeyName → FileName) (ops : List (Op × Option Nat)) (n x : Nat) (bad : Bool)
+    (hlive : ∃ kr ∈ (run (Sys.init fn) ops).cur.keys.rows, kr.name = ⟨n, .lit x⟩) :
+    step (run (Sys.init fn) ops) (.newKey n bad (.explicit x), none) = (.error .valueError, run (Sys.init fn) ops) := by
+  have hi := sysInv_run fn ops
+  obtain ⟨kr, hkr, hn⟩ := hlive
+  have hf : (run (Sys.init fn) ops).fault = none := run_fault _ ops rfl
+  have hfile : fileHas (run (Sys.init fn) ops).tpm ((run (Sys.init fn) ops).cfg.fn ⟨n, .lit x⟩) = true := by
+    have := hi.matched.1 kr hkr
+    rw [hn] at this
+    simp [fileHas, this]
+  have hid : (idRow? (run (Sys.init fn) ops).cur n).isSome = true := by
+    obtain ⟨i, him, _, hin⟩ := hi.link.1.keyHome kr hkr
+    rw [hn] at hin
+    simp only [idRow?, List.find?_isSome, decide_eq_true_eq]
+    exact ⟨i, him, hin⟩
+  have hsp := newKey_refuses n bad x { run (Sys.init fn) ops with fault := none } ⟨rfl, hid, hi.guard, hfile⟩
+  have hun := new_key_refused_unchanged fn ops n bad (.explicit x) none
+  simp only [step, Op.prog, run_bind] at hun ⊢
+  rcases hm : (Keychain.newKey n bad (.explicit x)).run { run (Sys.init fn) ops with fault := none } with ⟨e | u, s1⟩
+  · simp only [hm] at hsp hun ⊢
+    subst hsp
+    rw [hun rfl]
+  · simp only [hm] at hsp
+
+/-! ## the code before the repair: a refused new_key destroyed the live key's private key -/
+
+/-- a file-name function for the concrete histories below -/
+def demoFn (k : KeyName) : FileName :=
+  match k.kid with
+  | .rnd p => 3 * (k.idn * 1000 + p)
+  | .lit x => 3 * (k.idn * 1000 + x) + 1
+  | .hash p => 3 * (k.idn * 1000 + p) + 2
 
 deriving instance DecidableEq for Except
 
+/-- the key `/1/KEY/x1` -/
+abbrev demoKey : KeyName := ⟨1, .lit 1⟩
+/-- `new_identity 1; new_key(1, key_id=x1)` -/
+abbrev demoPre : List (Op × Option Nat) := [(.newIdentity 1, none), (.newKey 1 false (.explicit 1), none)]
+/-- `new_key(1, key_id=x1)` once more -/
+abbrev demoAgain : Op × Option Nat := (.newKey 1 false (.explicit 1), none)
+
+/-- **unchanged_new_key_overwrites_live_key.** The code before the repair (`Sys.initUnchanged`: `save_key`
+    overwrites): `new_identity 1; new_key(1, key_id=x1); new_key(1, key_id=x1)` - the second `new_key` is refused by
+    the database (IntegrityError: the key name exists), but the private-key file of the live key has been
+    overwritten already: the key row still holds the public key of key pair 0 while its file holds the private key
+    of key pair 1, and after a reopen (empty signer cache) `get_signer` for the key returns a signer that signs with
+    private key 1 - not the private key belonging to the selected key.  The same history on the repaired code:
+    ValueError, and the signer signs with private key 0. -/
+theorem unchanged_new_key_overwrites_live_key :
+    (step (run (Sys.initUnchanged demoFn) demoPre) demoAgain).1 = .error .integrityError ∧
+    (run (Sys.initUnchanged demoFn) (demoPre ++ [demoAgain, (.reopen, none)])).cur.keys.rows.map (fun r => (r.name, r.data))
+      = [(demoKey, 0)] ∧
+    fileGet (run (Sys.initUnchanged demoFn) (demoPre ++ [demoAgain, (.reopen, none)])).tpm (demoFn demoKey) = some 1 ∧
+    (step (run (Sys.initUnchanged demoFn) (demoPre ++ [demoAgain, (.reopen, none)]))
+      (.getSigner (.key demoKey) none, none)).1 = .ok (some ⟨demoKey, .cert ⟨demoKey, 0⟩, 1⟩) ∧
+    (step (run (Sys.init demoFn) demoPre) demoAgain).1 = .error .valueError ∧
+    (step (run (Sys.init demoFn) (demoPre ++ [demoAgain, (.reopen, none)]))
+      (.getSigner (.key demoKey) none, none)).1 = .ok (some ⟨demoKey, .cert ⟨demoKey, 0⟩, 0⟩) := by decide
+
+/-! ## non-vacuity: the hypotheses are met by concrete histories (evaluated by the kernel) -/
+
+/-- `key_files_match` is not vacuous for a file-name function WITH collisions either: with every key of an identity
+    mapped to one file name a second key of the identity is refused (ValueError), so the two names are never stored
+    together -/
+example :
+    let s := run (Sys.init fun k => k.idn) [(.touchIdentity 1, none), (.touchIdentity 2, none)]
+    (step s (.newKey 1 false .random, none)).1 = .error .valueError ∧
+    (step s (.newKey 2 false (.explicit 4), none)).1 = .error .valueError ∧
+    s.tpm = [(1, 0), (2, 1)] := by decide
+
 /-- two identities, the second identity has two keys: exactly one default per scope -/
 example :
-    let s := run Sys.init [(.touchIdentity 1, none), (.touchIdentity 2, none), (.newKey 2 false, none)]
+    let s := run (Sys.init demoFn) [(.touchIdentity 1, none), (.touchIdentity 2, none), (.newKey 2 false .random, none)]
     s.cur.ids.rows.map (fun r => (r.name, r.dflt)) = [(1, true), (2, false)] ∧
-    s.cur.keys.rows.map (fun r => (r.name, r.owner, r.dflt)) =
-      [(⟨1, 0⟩, 1, true), (⟨2, 1⟩, 2, true), (⟨2, 2⟩, 2, false)] := by decide
+    s.cur.keys.rows.map (fun r => (r.name, r.owner, r.dflt, r.data)) =
+      [(⟨1, 0⟩, 1, true, 0), (⟨2, 1⟩, 2, true, 1), (⟨2, 2⟩, 2, false, 2)] := by decide
 
 /-- `default_exists`: deleting the default identity leaves a populated scope without default, recorded in
     `lost`; a later insert gives it a default again and clears the record -/
 example :
-    let s := run Sys.init [(.touchIdentity 1, none), (.touchIdentity 2, none), (.delIdentity 1, none)]
+    let s := run (Sys.init demoFn) [(.touchIdentity 1, none), (.touchIdentity 2, none), (.delIdentity 1, none)]
     hasDefault false 0 s.cur.ids.rows = false ∧ s.cur.ids.lost = [0] ∧
     (run s [(.newIdentity 3, none)]).cur.ids.lost = [] ∧
     (run s [(.newIdentity 3, none)]).cur.ids.rows.map (fun r => (r.name, r.dflt)) = [(2, false), (3, true)] := by
   decide
 
-/-- `signer_right_key`: the hypothesis holds (explicit locator, non-default key; and via the cache) -/
+/-- `signer_right_key`: the hypothesis holds (explicit locator, non-default key with an explicit key id; via the
+    cache; a key whose id is the hash of its public key) -/
 example :
-    let s := run Sys.init [(.touchIdentity 1, none), (.newKey 1 false, none)]
-    (step s (.getSigner (.key ⟨1, 1⟩) (some 5), none)).1 = .ok (some ⟨⟨1, 1⟩, .lit 5⟩) ∧
-    (step (step s (.getSigner (.key ⟨1, 0⟩) (some 5), none)).2 (.getSigner (.key ⟨1, 1⟩) (some 5), none)).1
-      = .ok (some ⟨⟨1, 1⟩, .lit 5⟩) ∧
-    (step s (.getSigner .dflt none, none)).1 = .ok (some ⟨⟨1, 0⟩, .cert ⟨⟨1, 0⟩, 0⟩⟩) := by decide
+    let s := run (Sys.init demoFn) [(.touchIdentity 1, none), (.newKey 1 false (.explicit 7), none),
+      (.newKey 1 false .sha256, none)]
+    (step s (.getSigner (.key ⟨1, .lit 7⟩) (some 5), none)).1 = .ok (some ⟨⟨1, .lit 7⟩, .lit 5, 1⟩) ∧
+    (step (step s (.getSigner (.key ⟨1, 0⟩) (some 5), none)).2 (.getSigner (.key ⟨1, .lit 7⟩) (some 5), none)).1
+      = .ok (some ⟨⟨1, .lit 7⟩, .lit 5, 1⟩) ∧
+    (step s (.getSigner (.key ⟨1, .hash 2⟩) none, none)).1 = .ok (some ⟨⟨1, .hash 2⟩, .cert ⟨⟨1, .hash 2⟩, 0⟩, 2⟩) ∧
+    (step s (.getSigner .dflt none, none)).1 = .ok (some ⟨⟨1, 0⟩, .cert ⟨⟨1, 0⟩, 0⟩, 0⟩) := by decide
 
-/-- `del_key_cascades` / `del_identity_cascades` / `no_signer_for_deleted`: the deletes return normally, and a
-    signer is still obtainable for the surviving key -/
+/-- `del_key_cascades` / `del_identity_cascades` / `no_signer_for_deleted`: the deletes return normally, a
+    signer is still obtainable for the surviving key; the explicit key id of the deleted key is used again and the
+    signer for that NAME then signs with the new private key (2), not the deleted one (1) -/
 example :
-    let s := run Sys.init [(.touchIdentity 1, none), (.newKey 1 false, none), (.importCert ⟨1, 0⟩ ⟨⟨1, 0⟩, 2⟩, none)]
-    (step s (.delKey ⟨1, 0⟩, none)).1 = .ok none ∧
+    let s := run (Sys.init demoFn) [(.touchIdentity 1, none), (.newKey 1 false (.explicit 7), none),
+      (.importCert ⟨1, 0⟩ ⟨⟨1, 0⟩, 2⟩, none)]
+    (step s (.delKey ⟨1, .lit 7⟩, none)).1 = .ok none ∧
     (step s (.delIdentity 1, none)).1 = .ok none ∧
-    (step (step s (.delKey ⟨1, 0⟩, none)).2 (.getSigner (.key ⟨1, 1⟩) none, none)).1
-      = .ok (some ⟨⟨1, 1⟩, .cert ⟨⟨1, 1⟩, 0⟩⟩) ∧
+    (step (step s (.delKey ⟨1, 0⟩, none)).2 (.getSigner (.key ⟨1, .lit 7⟩) none, none)).1
+      = .ok (some ⟨⟨1, .lit 7⟩, .cert ⟨⟨1, .lit 7⟩, 0⟩, 1⟩) ∧
     (step (step s (.delKey ⟨1, 0⟩, none)).2 (.getSigner (.ident 1) none, none)).1 = .error .keyError ∧
-    (step (step s (.delKey ⟨1, 0⟩, none)).2 (.getSigner (.cert ⟨⟨1, 0⟩, 0⟩) none, none)).1 = .error .keyError := by
+    (step (step s (.delKey ⟨1, 0⟩, none)).2 (.getSigner (.cert ⟨⟨1, 0⟩, 0⟩) none, none)).1 = .error .keyError ∧
+    (step (run s [(.delKey ⟨1, .lit 7⟩, none), (.newKey 1 false (.explicit 7), none)])
+      (.getSigner (.key ⟨1, .lit 7⟩) none, none)).1 = .ok (some ⟨⟨1, .lit 7⟩, .cert ⟨⟨1, .lit 7⟩, 0⟩, 2⟩) := by
   decide
+
+/-- `new_key_refused_unchanged` / `live_key_id_refused`: the three refusals (the key id of a live key, an
+    unsupported `key_id_type`, an unsupported key type), also with a fault scheduled behind the refusal -/
+example :
+    let s := run (Sys.init demoFn) [(.touchIdentity 1, none), (.newKey 1 false (.explicit 7), none)]
+    (step s (.newKey 1 false (.explicit 7), none)).1 = .error .valueError ∧
+    (step s (.newKey 1 false (.explicit 7), some 3)).1 = .error .valueError ∧
+    (step s (.newKey 1 false .badType, none)).1 = .error .valueError ∧
+    (step s (.newKey 1 true .random, none)).1 = .error .valueError ∧
+    -- the same key id under another identity is another key name: accepted
+    (step (run s [(.touchIdentity 2, none)]) (.newKey 2 false (.explicit 7), none)).1 = .ok none := by decide
 
 /-- a storage failure inside `del_key` (after the certificates were deleted) leaves the key without
     certificates and uncommitted work - the invariants above still hold there -/
 example :
-    let s := (step (run Sys.init [(.touchIdentity 1, none)]) (.delKey ⟨1, 0⟩, some 1)).2
+    let s := (step (run (Sys.init demoFn) [(.touchIdentity 1, none)]) (.delKey ⟨1, 0⟩, some 1)).2
     s.cur.certs.rows.length = 0 ∧ s.cur.keys.rows.length = 1 ∧ s.com.certs.rows.length = 1 := by decide
 
 /-- `reopen_same`: a history satisfying `NoClash` -/
-example : NoClash Sys.init [.touchIdentity 1, .newKey 1 false, .importCert ⟨1, 0⟩ ⟨⟨1, 0⟩, 0⟩, .delKey ⟨1, 1⟩] := by
+example : NoClash (Sys.init demoFn) [.touchIdentity 1, .newKey 1 false (.explicit 7), .importCert ⟨1, 0⟩ ⟨⟨1, 0⟩, 0⟩,
+    .delKey ⟨1, .lit 7⟩] := by
   refine ⟨fun h => absurd h.2 (by decide), fun h => absurd h.2 (by decide), fun h => absurd h.1 (by decide),
     fun h => absurd h.1 (by decide), trivial⟩
 
 end Ndn.C15
+
